@@ -38,13 +38,7 @@ struct Buf {
   StringRef ref() const { return StringRef(p, n); }
 };
 
-static const char* PERTURB = getenv("NINJALEX_PERTURB");
-static bool pert(const char* x) { return PERTURB && !strcmp(PERTURB, x); }
 static std::string showToken(const ninja::Token& t, const char* base) {
-  if (pert("flipkw") && t.tokenKind == ninja::Token::Kind::KWPool)
-    return std::string("Identifier") + " " + std::to_string((long)(t.start - base)) + " " + std::to_string(t.length) + " " + std::to_string(t.line) + " " + std::to_string(t.column);
-  if (pert("subninj") && t.tokenKind == ninja::Token::Kind::Identifier && t.length == 8 && !memcmp(t.start, "subninj", 7))
-    return std::string("KWSubninja") + " " + std::to_string((long)(t.start - base)) + " " + std::to_string(t.length) + " " + std::to_string(t.line) + " " + std::to_string(t.column);
   return std::string(t.getKindName()) + " " + std::to_string((long)(t.start - base)) + " " + std::to_string(t.length) + " " +
          std::to_string(t.line) + " " + std::to_string(t.column);
 }
@@ -58,8 +52,6 @@ static std::string lexAll(char mode, const std::string& data) {
   for (size_t i = 0; i <= b.n + 1; i++) {
     if (i == b.n + 1) return r + "|HANG";
     lexer.lex(tok);
-    if (pert("droptok") && i == 1 && tok.tokenKind != ninja::Token::Kind::EndOfFile) continue;
-    if (pert("overread") && b.n && b.p[b.n - 1] == '$' && tok.tokenKind == ninja::Token::Kind::EndOfFile) { volatile char c = b.p[b.n]; (void)c; }
     if (!r.empty()) r += "|";
     r += showToken(tok, b.p);
     if (tok.tokenKind == ninja::Token::Kind::EndOfFile) break;
@@ -88,8 +80,6 @@ static void firstToken(char mode, const std::string& w, int& kind, unsigned& len
   lexer.setMode(modeOf(mode));
   ninja::Token tok; lexer.lex(tok);
   kind = (int)tok.tokenKind; len = tok.length;
-  if (pert("flipkw") && tok.tokenKind == ninja::Token::Kind::KWPool) kind = (int)ninja::Token::Kind::Identifier;
-  if (pert("subninj") && tok.tokenKind == ninja::Token::Kind::Identifier && tok.length == 8 && !memcmp(tok.start, "subninj", 7)) kind = (int)ninja::Token::Kind::KWSubninja;
 }
 
 // Runs /bin/sh -c <script> and returns its stdout; ok = exited with 0.
@@ -140,11 +130,6 @@ static std::string handle(const SV& t) {
   const std::string& c = t[0];
   if (c == "lex_all" && t.size() == 3 && t[1].size() == 1) return lexAll(t[1][0], unhex(t[2]));
   if (c == "lex_stream" && t.size() == 3) return lexStream(t[1], unhex(t[2]));
-  if (pert("hash") && (c == "shell_escaped" || c == "sh_real") && t.size() == 2) {
-    std::string a = unhex(t[1]); std::string e = basic::shellEscaped(a);
-    if (!a.empty() && a[0] == '#' && basic::shellEscaped(a.substr(1)) == a.substr(1)) e = a;
-    return c == "shell_escaped" ? hex(e) : shWords(e);
-  }
   if (c == "shell_escaped" && t.size() == 2) return hex(basic::shellEscaped(unhex(t[1])));
   if (c == "sh_real" && t.size() == 2) return shWords(basic::shellEscaped(unhex(t[1])));
   if (c == "sh_raw" && t.size() == 2) return shWords(unhex(t[1]));
@@ -173,7 +158,7 @@ static std::string handle(const SV& t) {
   // probe_whitelist: the bytes b (decimal) for which shellEscaped of the one-byte string is that string
   if (c == "probe_whitelist") {
     std::string r = "whitelist";
-    for (int v = 0; v < 256; v++) { std::string s(1, (char)v); if (basic::shellEscaped(s) == s || (pert("hash") && v == '#')) r += " " + std::to_string(v); }
+    for (int v = 0; v < 256; v++) { std::string s(1, (char)v); if (basic::shellEscaped(s) == s) r += " " + std::to_string(v); }
     return r;
   }
   // probe_identchars: the bytes accepted by isIdentifierChar / isSimpleIdentifierChar (called as the lexer calls them:
